@@ -101,6 +101,22 @@ Fixpoint depth (s : shape) : nat :=
 with fdepth (f : fields) : nat :=
   match f with FNil => 0 | FCons _ s r => Nat.max (depth s) (fdepth r) end.
 
+(* What fmt.Sprint follows inside a value of this type (slices, arrays, struct fields, interfaces; a pointer only at
+   the top): a map (which can contain itself through references), or an interface{} whose content the type does not tell. *)
+Inductive reach := RchNo | RchDyn | RchMap.
+Definition rjoin (a b : reach) : reach :=
+  match a, b with RchMap, _ | _, RchMap => RchMap | RchDyn, _ | _, RchDyn => RchDyn | _, _ => RchNo end.
+Fixpoint reach_of (s : shape) : reach :=
+  match s with
+  | SMap _ _ => RchMap
+  | SIface => RchDyn
+  | SSlice e | SArray _ e => reach_of e
+  | SStruct _ f => freach f
+  | _ => RchNo
+  end
+with freach (f : fields) : reach :=
+  match f with FNil => RchNo | FCons _ s r => rjoin (reach_of s) (freach r) end.
+
 Definition struct_kind (s : shape) : bool :=
   match s with SStruct _ _ | STime | SBigV _ => true | _ => false end.
 Definition ptr_kind (s : shape) : bool :=
@@ -251,9 +267,10 @@ Record fixes := mkfx {
   fx_next : bool;       (* next(n) does not allocate n bytes when the in-memory input is shorter *)
   fx_str : bool;        (* readStringAsBytes does not allocate utf16Length*3 when the in-memory input ended *)
   fx_strmap : bool;     (* a reference to a map is not formatted with fmt.Sprint into a string (it may contain itself) *)
-  fx_refnil : bool }.   (* a reference to the valueless slot of the client codec is a decode error for every destination *)
-Definition pinned : fixes := mkfx (fun _ => false) false false false false false.
-Definition repaired : fixes := mkfx (fun _ => true) true true true true true.
+  fx_refnil : bool;     (* a reference to the valueless slot of the client codec is a decode error for every destination *)
+  fx_strwalk : bool }.  (* strConverter refuses every value in which fmt.Sprint would reach a map, whatever the container on top *)
+Definition pinned : fixes := mkfx (fun _ => false) false false false false false false.
+Definition repaired : fixes := mkfx (fun _ => true) true true true true true true.
 
 (* abstract values: just enough for map keys (hashable?), field / method names and the "simple" header *)
 Inductive aval :=
@@ -497,6 +514,15 @@ Fixpoint convert (ch : bool) (r : rent) (dest : shape) (s : st) : out (option av
     match r with
     | RMapSI => if fx_strmap fx then ROk None s else ROk (Some (AOther true)) s   (* fmt.Sprint(map): unbounded if it contains itself *)
     | RStr t => ROk (Some (AStr t)) s
+    | RPtr sh =>
+      if fx_strwalk fx then
+        match reach_of sh with
+        | RchMap => ROk None s                    (* a map is in reach whatever the input: CastError *)
+        | RchDyn => RUnmod 7                      (* whether a map is in reach depends on the values read into interface{}:
+                                                     the model does not keep the value graph *)
+        | RchNo => ROk (Some (AOther true)) s
+        end
+      else ROk (Some (AOther true)) s
     | _ => ROk (Some (AOther true)) s
     end
   (* reflect.Ptr *)
